@@ -68,9 +68,18 @@ impl<T> DoubleEndedIterator for DeBox<'_, T> {
     fn next_back(&mut self) -> Option<T> {
         self.0.next_back()
     }
+    #[inline]
+    fn nth_back(&mut self, n: usize) -> Option<T> {
+        self.0.nth_back(n)
+    }
 }
 // SAFETY (of the harness): pure forwarding; the hint is exactly the wrapped library iterator's.
-unsafe impl<T> TrustedLen for DeBox<'_, T> {}
+unsafe impl<T> TrustedLen for DeBox<'_, T> {
+    #[inline]
+    fn len(&self) -> usize {
+        TrustedLen::len(&*self.0)
+    }
+}
 
 pub type FwBox<'a, T> = Box<dyn TrustedLen<Item = T> + 'a>;
 
@@ -137,6 +146,43 @@ impl<'a, T: 'a> S<'a, T> {
             S::Pl(p) => p.size_hint(),
         }
     }
+    /// the library's own accessor `TrustedLen::len()` (None for untrusted streams and when
+    /// there is no upper bound, where it would panic)
+    pub fn tl_len(&self) -> Option<usize> {
+        self.size_hint().1?;
+        match self {
+            S::De(d) => Some(TrustedLen::len(d)),
+            S::Fw(f) => Some(TrustedLen::len(f)),
+            S::Pl(_) => None,
+        }
+    }
+    pub fn nth_back(&mut self, n: usize) -> Option<T> {
+        match self {
+            S::De(d) => d.nth_back(n),
+            _ => panic!("HARNESS: nth_back on a forward-only stream"),
+        }
+    }
+    pub fn count(self) -> usize {
+        match self {
+            S::De(d) => Iterator::count(d),
+            S::Fw(f) => Iterator::count(f),
+            S::Pl(p) => Iterator::count(p),
+        }
+    }
+    pub fn last(self) -> Option<T> {
+        match self {
+            S::De(d) => Iterator::last(d),
+            S::Fw(f) => Iterator::last(f),
+            S::Pl(p) => Iterator::last(p),
+        }
+    }
+    pub fn for_each(self, g: impl FnMut(T)) {
+        match self {
+            S::De(d) => d.for_each(g),
+            S::Fw(f) => f.for_each(g),
+            S::Pl(p) => p.for_each(g),
+        }
+    }
 }
 
 pub enum Stream<'a> {
@@ -188,6 +234,27 @@ impl<'a> Stream<'a> {
     }
     pub fn size_hint(&self) -> (usize, Option<usize>) {
         with_stream!(self, s => s.size_hint())
+    }
+    pub fn tl_len(&self) -> Option<usize> {
+        with_stream!(self, s => s.tl_len())
+    }
+    pub fn nth_back_obs(&mut self, n: usize) -> Option<Obs> {
+        with_stream!(self, s => s.nth_back(n).map(|v| v.obs()))
+    }
+    pub fn count(self) -> usize {
+        with_stream!(self, s => s.count())
+    }
+    pub fn last_obs(self) -> Option<Obs> {
+        with_stream!(self, s => s.last().map(|v| v.obs()))
+    }
+    pub fn for_each_obs(self) -> Vec<Obs> {
+        let mut out = Vec::new();
+        with_stream!(self, s => s.for_each(|v| {
+            if out.len() <= crate::simvec::DRAIN_LIMIT + 16 {
+                out.push(v.obs())
+            }
+        }));
+        out
     }
     pub fn next_obs(&mut self) -> Option<Obs> {
         with_stream!(self, s => s.next().map(|v| v.obs()))
